@@ -74,6 +74,7 @@ pub fn spec() -> PropSpec {
                 let cfg = SeqCfg { max_ops: if ctx.tier == Tier::Thorough { 40 } else { 12 }, ..SeqCfg::DEFAULT };
                 gen::msg_seq(cfg).prop_map(|seq| Case { seq }).boxed()
             }, 200_000, 5_000_000, eval),
+            PropCheck::new("strict-decode-kilobyte-chunks", |_| gen::msg_seq_large(6).prop_map(|seq| Case { seq }).boxed(), 6_000, 200_000, eval),
             PropCheck::new("many-message-streams", |_| gen::msg_seq_many_msids().prop_map(|seq| Case { seq }).boxed(), 600, 20_000, eval),
             EnumCheck::new("large", false, large_cases, eval),
         ],
